@@ -13,6 +13,9 @@ pub struct AstGen {
     /// use the domain knowledge for identifiers and numbers (statements()); off for the C16/C17
     /// generators, which want arbitrary values
     pub realistic: bool,
+    /// with `realistic`: never fall back to raw identifiers / numbers (values whose own Display is
+    /// defined: no `unexpected quote style` panic)
+    pub strict: bool,
 }
 
 const INF: u32 = 1_000_000;
@@ -49,7 +52,7 @@ impl AstGen {
                 break;
             }
         }
-        AstGen { root_statement: j["roots"]["Statement"].as_u64().unwrap() as usize, types, need, realistic: false }
+        AstGen { root_statement: j["roots"]["Statement"].as_u64().unwrap() as usize, types, need, realistic: false, strict: false }
     }
 
     pub fn min_need(&self, id: usize) -> u32 {
@@ -123,7 +126,7 @@ impl AstGen {
         // domain knowledge that the type system does not carry (otherwise most printed values are
         // rejected or panic in Display): an identifier's quote is one of the quote characters, an
         // unquoted identifier is a word; a number's text is numeric.  One value in eight stays raw.
-        if self.realistic && !rng.chance(1, 8) {
+        if self.realistic && (self.strict || !rng.chance(1, 8)) {
             match t["name"].as_str().unwrap_or("") {
                 "Ident" if t["kind"] == "struct" && t["variants"][0]["fields"].as_array().map(|f| f.len()) == Some(2) => {
                     let words = ["a", "b", "t1", "col", "my_tab", "x9", "Tbl", "v"];
